@@ -159,7 +159,7 @@ func c08Chunks(c *vrep.Ctx) {
 		if msg != "" {
 			got = "panic: " + msg
 		}
-		r.Note = map[string]interface{}{"input": ii, "chunk": ch, "eof": eofWith, "got": got, "reads": rd.reads}
+		r.Note = map[string]interface{}{"input": ii, "chunk": ch, "eof": eofWith, "got": got, "reads": rd.reads, "obs": got}
 	}
 	c.Run(vSplitExplorer(c, budget, 3), body, func(r *vx.Run) {
 		ii := r.Note["input"].(int)
